@@ -3,7 +3,7 @@
 (* one observation made by the harness on the REAL package timeout, with       *)
 (* monotonic microsecond stamps relative to the start of the execution:        *)
 (*                                                                             *)
-(*   {"e":"Begin", "late":0|1, "L":..,"Q":..,"idle":..,"slack":..,"maxw":..}   *)
+(*   {"e":"Begin", "late":0|1, "L":..,"Q":..,"idle":..,"slack":..,"maxw":..,"gap":..} *)
 (*   {"e":"Call", "i":n, "d":us, "tb":us, "ta":us}                             *)
 (*   {"e":"Start", "i":n, "t":us}          first statement of the callback     *)
 (*   {"e":"CancelRet", "i":n, "t":us}      taken right after Cancel returned   *)
@@ -26,7 +26,7 @@ TA == INSTANCE TimerAbs WITH Ids <- {}, Stamps <- {}, DelaySet <- {}
 
 Ev == Trace[l]
 
-NoCfg == [late |-> FALSE, L |-> 0, Q |-> 0, idle |-> 0, slack |-> 0, maxw |-> 0]
+NoCfg == [late |-> FALSE, L |-> 0, Q |-> 0, idle |-> 0, slack |-> 0, maxw |-> 0, gap |-> 0]
 
 Init == /\ due = <<>> /\ ref = <<>> /\ started = {} /\ cancelled = {} /\ intime = {}
         /\ cfg = NoCfg /\ l = 1
@@ -34,7 +34,7 @@ Init == /\ due = <<>> /\ ref = <<>> /\ started = {} /\ cancelled = {} /\ intime 
 Step ==
     CASE Ev.e = "Begin" ->
            TA!Begin([late |-> Ev.late = 1, L |-> Ev.L, Q |-> Ev.Q, idle |-> Ev.idle,
-                     slack |-> Ev.slack, maxw |-> Ev.maxw])
+                     slack |-> Ev.slack, maxw |-> Ev.maxw, gap |-> Ev.gap])
       [] Ev.e = "Call"      -> TA!Call(Ev.i, Ev.tb, Ev.ta, Ev.d)
       [] Ev.e = "Start"     -> TA!Start(Ev.i, Ev.t)
       [] Ev.e = "CancelRet" -> TA!CancelRet(Ev.i, Ev.t)
